@@ -207,8 +207,21 @@ def collect_scenarios(rep, lib):
             tys = []
             for h, blocks in cb.loops().items():
                 tys += [iter_type(c) for c in loop_driver(cb, blocks, h)]
-            if tys and all(t and "Rev<" not in t and ("indexmap::map::Iter" in t or "std::slice::Iter" in t) for t in tys):
-                r.ok(st.short + "::complete#order", "forward iteration (%s)" % tys[0][:60], cb.where(), nontrivial=False)
+            # whatever the shape (a loop, or iter().map(..).collect()): nothing in complete() may reverse, sort or
+            # otherwise permute what it reads, and the collection is read through a forward iterator
+            PERMUTE = ("::rev", "Rev<", "sort", "reverse", "rotate_", "swap", "next_back", "rfold", "rposition",
+                       "::pop", "last", "shuffle", "retain", "dedup", "remove")
+            perm = [c for c in cb.calls if any(x in (c.full or c.name or "") or x in c.dest.get("ty", "") for x in PERMUTE)]
+            fwd = [c for c in cb.calls if any(x in c.dest.get("ty", "") for x in
+                                              ("indexmap::map::Iter<", "std::slice::Iter<", "indexmap::map::IntoIter<",
+                                               "std::vec::IntoIter<"))]
+            loops_ok = all(t and "Rev<" not in t and ("indexmap::map::Iter" in t or "std::slice::Iter" in t) for t in tys)
+            if perm:
+                r.bad(st.short + "::complete#order", "the stored rows are reversed / reordered on their way out (%s)"
+                      % (perm[0].full or perm[0].name), perm[0].where())
+            elif (tys and loops_ok) or (not tys and fwd):
+                r.ok(st.short + "::complete#order", "forward iteration (%s)" % ((tys or [fwd[0].dest.get("ty", "")])[0][:60]),
+                     cb.where(), nontrivial=False)
             else:
                 r.bad(st.short + "::complete#order", "the stored rows are not read front to back by a plain forward "
                       "iterator: %s" % tys, cb.where())
